@@ -6,6 +6,7 @@ import (
 	"testing/synctest"
 	"time"
 
+	"github.com/btcsuite/btcd/chainhash/v2"
 	"github.com/btcsuite/btcd/wire/v2"
 	"github.com/lightninglabs/neutrino"
 	"github.com/lightninglabs/neutrino/blockntfns"
@@ -30,6 +31,11 @@ type simSub struct {
 	nConn  int
 	nDisc  int
 	closed bool
+	// disc: hashes of the blocks announced as disconnected since the last
+	// completed observation of the stores; midChange: opened while a
+	// block-manager goroutine was parked half-way through a chain change.
+	disc      []chainhash.Hash
+	midChange bool
 }
 
 // subWatch drains every subscription at quiescent points and replays the
@@ -43,6 +49,11 @@ type subWatch struct {
 
 func (sw *subWatch) open(height uint32) *simSub {
 	w := sw.w
+	// Whatever the stores hold now is observed (and every older
+	// subscription judged on it) before the new one exists.
+	if sw.wt != nil && w.running && w.parkedAt() == "" && sw.wt.changed() {
+		sw.wt.check()
+	}
 	// The holder of a subscription from height h is assumed to hold the
 	// client's committed chain up to h as of now (quiescent point).
 	var held []wire.BlockHeader
@@ -88,7 +99,7 @@ func (sw *subWatch) open(height uint32) *simSub {
 			r.s.Cancel()
 			return nil
 		}
-		s := &simSub{idx: len(sw.subs), sub: r.s, height: height, held: held}
+		s := &simSub{idx: len(sw.subs), sub: r.s, height: height, held: held, midChange: w.parkedAt() != ""}
 		sw.subs = append(sw.subs, s)
 		w.rc.Logf("t=%s subscribe(%d) -> sub %d", w.clock(), height, s.idx)
 		return s
@@ -157,6 +168,7 @@ func (sw *subWatch) replay(s *simSub, n blockntfns.BlockNtfn) {
 		s.held = append(s.held, hdr)
 	case *blockntfns.Disconnected:
 		s.nDisc++
+		s.disc = append(s.disc, hdr.BlockHash())
 		tip := uint32(len(s.held) - 1)
 		if h > tip {
 			w.rc.Probe("disconnected_event_for_block_never_held")
@@ -174,6 +186,52 @@ func (sw *subWatch) replay(s *simSub, n blockntfns.BlockNtfn) {
 			sw.fail("disconnected-wrong-new-tip", nil,
 				"sub %d: disconnected event for height %d names %s as the tip afterwards, the holder has %s",
 				s.idx, h, short(nt.BlockHash()), short(s.held[len(s.held)-1].BlockHash()))
+		}
+	}
+}
+
+// removed checks, for the change of the stored block-header chain between two
+// completed observations, that every header the change removed was announced
+// as disconnected, highest first, to every subscription that was open
+// throughout (other blocks connected and disconnected in between may appear as
+// well).
+func (sw *subWatch) removed(prev, cur *storeView) {
+	defer func() {
+		for _, s := range sw.subs {
+			s.disc, s.midChange = nil, false
+		}
+	}()
+	if prev == nil {
+		return
+	}
+	k := 0
+	for k+1 < len(prev.hdrs) && k+1 < len(cur.hdrs) && prev.hdrs[k+1].BlockHash() == cur.hdrs[k+1].BlockHash() {
+		k++
+	}
+	if k+1 >= len(prev.hdrs) {
+		return
+	}
+	sw.w.rc.Probe("rollback_observed_with_subscribers")
+	if len(prev.filt) <= len(prev.hdrs)-1 {
+		sw.w.rc.Probe("rollback_of_blocks_above_filter_tip_observed")
+	}
+	for _, s := range sw.subs {
+		if s.closed || s.midChange {
+			continue
+		}
+		i := 0
+		for h := len(prev.hdrs) - 1; h > k; h-- {
+			want := prev.hdrs[h].BlockHash()
+			for i < len(s.disc) && s.disc[i] != want {
+				i++
+			}
+			if i == len(s.disc) {
+				sw.fail("removed-header-not-announced", map[string]string{"above_filter_tip": fmt.Sprint(h > len(prev.filt)-1)},
+					"sub %d: the header at height %d (%s) was removed from the chain (rollback from %d to %d) but no disconnected event for it arrived in order (%d disconnected events since the last observation; filter tip before: %d)",
+					s.idx, h, short(want), len(prev.hdrs)-1, k, len(s.disc), len(prev.filt)-1)
+				break
+			}
+			i++
 		}
 	}
 }
@@ -389,6 +447,7 @@ func runFilters(t *testing.T, rc *core.RunCtx) {
 	})
 	wt.onView = func(prev, cur *storeView) {
 		sw.drain()
+		sw.removed(prev, cur)
 		sw.compare(cur)
 	}
 	defer func() {
@@ -405,14 +464,43 @@ func runFilters(t *testing.T, rc *core.RunCtx) {
 	// knows only genesis.
 	sw.open(0)
 
+	// Parked instants (hook H7): in one run in three, block-manager
+	// goroutines are held between two steps of one chain change (filter
+	// headers stored but the tip not yet moved, between two connected
+	// events of one batch, between two blocks of one rollback, headers
+	// stored but the header tip not yet moved) and a subscription is opened
+	// at that very instant.
+	if tp.Chance(1, 3) {
+		for i, k := 0, 1+tp.Intn(3); i < k; i++ {
+			w.armYield(yieldSites[tp.Intn(len(yieldSites))], 1+tp.Intn(8), time.Duration(1+tp.Intn(3000))*time.Millisecond)
+		}
+		w.onParked = func(site string) {
+			_, ft, err := w.cs.RegFilterHeaders.ChainTip()
+			if err != nil {
+				return
+			}
+			if sw.open(uint32(tp.Intn(int(ft)+2))) != nil {
+				rc.Probe("subscription_opened_while_parked_" + site)
+			}
+		}
+	}
+
 	honestTip := plan.main
+	unannounced := false
 	follow := func(newTip *chainmodel.Block, announce bool) {
 		for _, p := range w.peers {
 			switch p.role {
 			case "honest", "cf-liar", "no-cf", "flaky", "silent", "cf-surplus":
 				p.setView(newTip)
 				p.fhCache = nil
-				if announce && (p.idx == 0 || tp.Chance(1, 2)) {
+				will := announce && (p.idx == 0 || tp.Chance(1, 2))
+				if !will && p.connected() && p.shook {
+					// a node the client is connected to learnt a block
+					// and keeps it to itself: as good as a lost
+					// announcement
+					unannounced = true
+				}
+				if will {
 					useHdr := tp.Chance(1, 3)
 					nh := 1 + tp.Intn(2)
 					if p.idx == 0 && useHdr && wt.prev != nil {
@@ -558,8 +646,14 @@ func runFilters(t *testing.T, rc *core.RunCtx) {
 		}
 		return true
 	}
+	// The honest node's announcements below presuppose that its handshake
+	// with the client is complete (the client may have reached the tip
+	// through another honest node before that).
+	honestReady := func() {
+		w.runFor(2*time.Minute, func() bool { return w.peers[0].shook && w.peers[0].connected() })
+	}
 	converged := w.runFor(bound/3, atHonestTip)
-	lossy := rc.Res.Faults["net.drop"]+rc.Res.Faults["net.stall"]+rc.Res.Faults["net.silent"]+rc.Res.Faults["net.close"]+rc.Res.Faults["net.down"] > 0
+	lossy := rc.Res.Faults["net.drop"]+rc.Res.Faults["net.stall"]+rc.Res.Faults["net.silent"]+rc.Res.Faults["net.close"]+rc.Res.Faults["net.down"] > 0 || unannounced
 	if !converged && !lossy && rc.Prop == "C04" {
 		// Nothing was ever lost, delayed or cut in this run: there is no
 		// excuse for waiting for the next block.
@@ -577,6 +671,7 @@ func runFilters(t *testing.T, rc *core.RunCtx) {
 		rc.Logf("t=%s calm phase: not yet at the honest tip, the chain grows by 1 to %d", w.clock(), honestTip.Height)
 		rc.Probe("calm_phase_needed_another_block")
 		follow(honestTip, false)
+		honestReady()
 		w.peers[0].announce(false, 1)
 		converged = w.runFor(2*bound/3, atHonestTip)
 	}
@@ -598,6 +693,7 @@ func runFilters(t *testing.T, rc *core.RunCtx) {
 			// And it keeps doing so as the chain grows.
 			honestTip = w.mineChain(honestTip, 1+tp.Intn(2), time.Minute, time.Now().Add(-10*time.Second), 0, "", &plan.salt, 70)
 			follow(honestTip, false)
+			honestReady()
 			w.peers[0].announce(tp.Chance(1, 2), 1)
 			if !w.runFor(bound, atHonestTip) {
 				wt.check()
